@@ -63,7 +63,11 @@ func subProfile(r *rand.Rand) (gen.Profile, gen.DataCfg) {
 	p.Subscriptions = true
 	p.Interfaces, p.Unions = [2]int{0, 0}, [2]int{0, 0}
 	p.PArgs = 0.15
-	return p, gen.DataCfg{Seed: uint64(r.Int63()), PNull: 0, ListMax: 2, Pool: 3}
+	d := gen.DataCfg{Seed: uint64(r.Int63()), PNull: 0, ListMax: 2, Pool: 3}
+	if r.Intn(2) == 0 {
+		d.PNull, d.NoNullObjElems = 30, true // events whose objects owned by other services are null / lists empty: nothing to stitch
+	}
+	return p, d
 }
 
 var rootFieldRe = regexp.MustCompile(`^(subscription[^{]*\{\s*)((?:\w+:\s*)?\w+)(\(([^)]*)\))?`)
@@ -136,8 +140,10 @@ func (p c17) Gen(c *run.Ctx, idx int) (json.RawMessage, error) {
 				if r.Intn(3) == 0 {
 					script = append(script, fake.SubEvent{Kind: "sleep", SleepUs: r.Intn(3000)})
 				}
-				if r.Intn(12) == 0 {
+				if x := r.Intn(12); x == 0 {
 					script = append(script, fake.SubEvent{Kind: "errors-payload"})
+				} else if x == 1 {
+					script = append(script, fake.SubEvent{Kind: "errors+data"})
 				} else {
 					script = append(script, fake.SubEvent{Kind: "data"})
 				}
@@ -264,7 +270,7 @@ func (p c17) Exec(c *run.Ctx, idx int, raw json.RawMessage) []run.Result {
 				total += int(atomic.LoadInt32(&uc.Emitted))
 				want := 0
 				for _, e := range scripts[uc.Marker] {
-					if e.Kind == "data" || e.Kind == "errors-payload" {
+					if e.Kind == "data" || e.Kind == "errors-payload" || e.Kind == "errors+data" {
 						want++
 					}
 				}
@@ -346,6 +352,8 @@ func (p c17) Exec(c *run.Ctx, idx int, raw json.RawMessage) []run.Result {
 					want = append(want, "data")
 				case "errors-payload":
 					want = append(want, "errors")
+				case "errors+data":
+					want = append(want, "errors+data")
 				}
 			}
 			emitted := int(atomic.LoadInt32(&uc.Emitted))
@@ -388,6 +396,15 @@ func (p c17) Exec(c *run.Ctx, idx int, raw json.RawMessage) []run.Result {
 						add("upstream-error-frame-not-forwarded-as-errors", fmt.Sprintf("subscription %s: %s", s.ID, head(f.Raw, 300)))
 					}
 					res.Counters["upstream_error_frames_forwarded"]++
+					continue
+				}
+				if want[i] == "errors+data" {
+					// a partial upstream answer: whatever happens to the data, the event's errors reach the client
+					el, _ := f.Payload["errors"].([]any)
+					if len(el) == 0 || !strings.Contains(errMessages(el), fmt.Sprintf("upstream partial error %s#%d", s.Marker, k)) {
+						add("upstream-errors-next-to-data-not-forwarded", fmt.Sprintf("subscription %s event %d: %s", s.ID, k, head(f.Raw, 300)))
+					}
+					res.Counters["partial_events_checked"]++
 					continue
 				}
 				if want[i] == "errors" {
